@@ -14,7 +14,7 @@ CHECKS["C01"] = dict(
     level="exploration",
     rule=("cases = VPSC instances from generators dag/multigraph/cycles/equalities/structured/scaled-dag/ties/dense-small "
           "(integer and continuous data, n 1..300), the exhaustive family n<=3,m<=3,gaps{-1,0,1,2},d{0,1,2}, and live-IncSolver "
-          "histories; each run through vpsc::Solver, vpsc::IncSolver and Avoid::IncSolver (satisfy and solve). "
+          "histories (constraints added, desired positions moved, variable weights changed between solves); each run through vpsc::Solver, vpsc::IncSolver and Avoid::IncSolver (satisfy and solve). "
           "non-trivial = at least one constraint ends tight (a merge happened) or the instance is infeasible; "
           "for histories: a re-solve changed the positions. distinct = distinct 64-bit digest of the expanded case"),
     workloads=[
@@ -24,7 +24,7 @@ CHECKS["C01"] = dict(
     ],
     min_nontrivial=dict(quick=5000, thorough=50000),
     max_inconclusive=0.02,
-    require_obs=["infeasible_correctly_flagged", "history_solves", "runs.avoid.solve", "runs.static.solve"],
+    require_obs=["infeasible_correctly_flagged", "history_solves", "runs.avoid.solve", "runs.static.solve", "weight_changes_on_a_live_solver"],
     exhaustive_note="mode 'tiny' enumerates every instance with n<=3, m<=3, gaps in {-1,0,1,2}, desired in {0,1,2}, unit weights (394,743 instances); the other workloads are sampled",
     assumptions=[
         "static vpsc::Solver is exercised on acyclic constraint graphs only (its documented domain)",
@@ -38,7 +38,7 @@ CHECKS["C02"] = dict(
     rule=("cases = feasible VPSC instances (same generators as C01, incl. scaled variables and equalities) on which nothing is flagged; "
           "the optimum is certified per case by an independent oracle (Hildreth dual ascent + exact KKT check in long double, or exhaustive "
           "active-set enumeration for n<=6,m<=8) and compared with solve() of vpsc::Solver (DAGs), vpsc::IncSolver and Avoid::IncSolver; "
-          "perm: 4 permutations of variable/constraint order and ids per instance; resolve: live IncSolver re-solved after desired positions move. "
+          "perm: 4 permutations of variable/constraint order and ids per instance; resolve: live IncSolver re-solved after desired positions move and after variable weights change (what cola::GradientProjection does when it fixes or releases a node). "
           "non-trivial = the optimum differs from the unconstrained optimum and from the point satisfy() returns"),
     workloads=[
         dict(harness="c01_vpsc", mode="opt", quick=30000, thorough=1500000, watchdog=60, san_thorough=30000),
@@ -343,7 +343,7 @@ CHECKS["C06"] = dict(
     rule=("cases = histories on one live Router: initial scene (2-9 separated convex shapes, 1-4 connectors) followed by 1-12 transactions of 1-4 operations drawn from "
           "move (relative / absolute incl. resize) / delete / add shape, move endpoint, add / delete connector and geometric no-ops, and in some histories changes of the routing parameter "
           "shapeBufferDistance between transactions (the fresh router gets the current value); both routing modes, transactions on and "
-          "setTransactionUse(false), segmentPenalty 0 and >0; after every processTransaction a freshly built Router for the same final scene is the reference model. "
+          "setTransactionUse(false), segmentPenalty 0 and >0, Router::InvisibilityGrph on and (15% of polyline histories) off; after every processTransaction a freshly built Router for the same final scene is the reference model. "
           "non-trivial = at least one route changed during the history; distinct = digest of the recorded operation history"),
     workloads=[
         dict(harness="c06_incr", mode="history", quick=30000, thorough=1500000, watchdog=30, san_thorough=3000),
@@ -385,12 +385,13 @@ CHECKS["C11"] = dict(
     level="exploration",
     rule=("cases = scenes of 2-7 rectangles each carrying 1-2 pin classes with 1-4 pins (proportional / absolute offsets, border and interior positions, inside offsets, automatic and "
           "explicit direction masks, default and explicit exclusivity, connection costs), 0-2 junctions, 1-8 connectors attached to pin classes (within exclusive capacity), junctions "
-          "or free points, 0-3 checkpoints; then 0-4 transactions moving / resizing shapes; both routing modes. The monitor holds every pin it created and re-derives its position from "
+          "or free points, 0-3 checkpoints; then 0-4 transactions moving / resizing shapes, re-targeting connector ends to another shape's pin class or a free point (often in the same transaction "
+          "that moves the shape the end was attached to) and mirroring / half-turning a shape's pins with ShapeRef::transformConnectionPinPositions; both routing modes. The monitor holds every pin it created and re-derives its position from "
           "the documented offset rule. non-trivial = a connector uses a class with >=2 pins, or has checkpoints"),
     workloads=[dict(harness="c11_pins", mode="pins", quick=12000, thorough=1500000, watchdog=120, san_thorough=6000)],
     min_nontrivial=dict(quick=3000, thorough=40000),
     max_inconclusive=0.05,
-    require_obs=["routes_checked", "pin_ends_checked", "pin_directions_checked", "junction_ends_checked", "checkpoints_checked", "moves", "resizes"],
+    require_obs=["routes_checked", "pin_ends_checked", "pin_directions_checked", "junction_ends_checked", "checkpoints_checked", "moves", "resizes", "connector_ends_retargeted", "pin_transformations"],
     assumptions=["checkpoint order is judged on route() for orthogonal connectors (what nudging does to checkpoints is C10's business) and on displayRoute() for polyline ones",
                  "numbers of connectors per exclusive pin class stay within capacity ('provided a free pin exists')"],
 )
@@ -484,7 +485,7 @@ MANIFEST_TEXT["C13"] = dict(
 CHECKS["C14"] = dict(
     level="exploration",
     rule=("random: connected simple graphs n 1..60 (random connected, trees, cycles, ladders, cores with hanging trees, hubs up to degree 12, dense cores), random node sizes and initial "
-          "positions, HolaOpts varied (ACA vs chains for links, near-align on/off, aspect-ratio preference, padding scalar, tree growth direction, convex trees); shipped: the TGLF graphs "
+          "positions, HolaOpts varied (ACA vs chains for links, near-align on/off, aspect-ratio preference, padding scalar, preferred and default tree growth direction, convex trees, tree routing types); shipped: the TGLF graphs "
           "under libdialect/tests/graphs (connected, simple, <=120 nodes). After doHOLA returns: same node ids / edge multiset, exact node sizes, no overlap, every edge routed with axis-parallel "
           "segments ending at its end nodes and avoiding other nodes, and every separation constraint the graph writes out is satisfied (own interpreter of the TGLF sepco semantics). "
           "non-trivial = the graph has a cycle and a leaf (core plus peeled tree), or some edge is bent"),
